@@ -30,6 +30,17 @@ func c15Lit(r *rand.Rand) gast.Expr {
 	return gast.BoolLit{V: r.Intn(2) == 0}
 }
 
+// c15Num draws a numeric literal on either side of the inline limit, or a float.
+func c15Num(r *rand.Rand) gast.Expr {
+	switch r.Intn(3) {
+	case 0:
+		return gast.IntLit{V: []int64{1, 2, 7, 65534}[r.Intn(4)]}
+	case 1:
+		return gast.IntLit{V: []int64{65535, 70000, 1 << 40}[r.Intn(3)]}
+	}
+	return gast.FloatLit{V: []float64{0.5, 2.5, 100.25}[r.Intn(3)]}
+}
+
 // c15Program builds a data-flow program: copies between variables,
 // parameters, array elements and fields, then a mutator on one copy.
 func c15Program(r *rand.Rand) gast.Program {
@@ -59,7 +70,19 @@ func c15Program(r *rand.Rand) gast.Program {
 	var gen func(depth int) []gast.Stmt
 	gen = func(depth int) []gast.Stmt {
 		var out []gast.Stmt
-		switch r.Intn(15) {
+		switch r.Intn(16) {
+		case 14:
+			// negative literals (and positive ones) in places the compiler emits more than once:
+			// the block of a case that lists several values, the subject of a switch with
+			// several cases - each copy denotes the value that is written
+			neg := func() gast.Expr { return gast.Prefix{Op: "-", X: c15Num(r)} }
+			a, b := pickV(), pickV()
+			arm := []gast.Stmt{gast.Assign{Name: a, X: neg()}, mut(a), gast.OpAssign{Name: b, Op: []string{"+", "-", "*"}[r.Intn(3)], X: neg()}, gast.Assign{Name: "arr", X: gast.ArrayLit{Els: []gast.Expr{neg(), c15Lit(r), id(a)}}}}
+			hit := int64(1 + r.Intn(4))
+			out = append(out, gast.Assign{Name: "sel", X: gast.IntLit{V: hit}}, gast.Switch{X: []gast.Expr{id("sel"), gast.Infix{Op: "-", L: gast.Infix{Op: "+", L: id("sel"), R: neg()}, R: neg()}}[r.Intn(2)], Cases: []gast.Case{
+				{Exprs: []gast.Expr{gast.IntLit{V: 1}, gast.IntLit{V: 2}, gast.IntLit{V: 3}}, Body: arm},
+				{Exprs: []gast.Expr{gast.IntLit{V: 4}, gast.IntLit{V: 5}}, Body: []gast.Stmt{gast.Assign{Name: b, X: neg()}, mut(b)}},
+				{Default: true, Body: []gast.Stmt{gast.Assign{Name: a, X: neg()}}}}})
 		case 0, 1:
 			out = append(out, gast.Assign{Name: pickV(), X: id(pickV())})
 		case 2:
